@@ -147,10 +147,10 @@ def grid_values():
     base = [-1.0, 0.0, 0.5, 1.0, 1.0 + EPS, 3.0]
     coords = []
     for lb in (None, -INF, NAN, -1.0, 0.0, 1.0):
-        for ub in (None, INF, NAN, 1.0, 1.0 + EPS, 3.0, -1.0):
+        for ub in (None, INF, NAN, 0.0, 1.0, 1.0 + EPS, 3.0, -1.0):
             for plb in (None, -INF, NAN, -1.0, 0.0, 0.5, 1.0):
-                for pub in (None, INF, NAN, 0.5, 1.0, 1.0 + EPS, 3.0):
-                    for x in (None, NAN, INF, -1.0, 0.25, 0.5, 1.0, 2.0):
+                for pub in (None, INF, NAN, -0.5, 0.5, 1.0, 1.0 + EPS, 3.0):
+                    for x in (None, NAN, INF, -1.0, 0.0, 0.25, 0.5, 1.0, 2.0):
                         coords.append((lb, ub, plb, pub, x))
     return coords
 
